@@ -180,25 +180,32 @@ func (x *opFunction) Validate(rootValue cue.Value, cuePath CuePath, previousType
 	// Only a function that returns one element of its input (First, Last, Index) has the
 	// input's element type; AsArray and Select return arrays of something else.
 	if fd.Returns.Type == PT_Any && fd.Returns.IOType == IOOT_Single {
+		elementType := PT_Any
 		switch k {
 		// Primative Kinds:
 		case cue.BoolKind:
-			returnedType.Type = PT_Boolean
+			elementType = PT_Boolean
 		case cue.StringKind:
-			returnedType.Type = PT_String
+			elementType = PT_String
 		case cue.NumberKind, cue.IntKind, cue.FloatKind:
-			returnedType.Type = PT_Number
+			elementType = PT_Number
 		case cue.StructKind:
-			returnedType.Type = PT_Object
+			elementType = PT_Object
 		case cue.ListKind:
-			returnedType.Type = PT_Any //todo: can I use the underlying type?
+			elementType = PT_Any //todo: can I use the underlying type?
+		}
+		// the schema value at the path is the function's input only while no other function has
+		// been applied to it: after AsArray, say, the input is a list of lists, not the list the
+		// schema describes
+		if previousType.Type == elementType {
+			returnedType.Type = elementType
 		}
 	}
 	part.Type = returnedType
 	part.Type.CueExpr = fd.Returns.Type.CueExpr()
 	returnsKnownValues = fd.ReturnsKnownValues
 
-	if fd.ReturnsKnownValues && fd.Returns.IOType == IOOT_Single && previousType.IOType == IOOT_Array && k == cue.StructKind {
+	if fd.ReturnsKnownValues && fd.Returns.IOType == IOOT_Single && previousType.IOType == IOOT_Array && previousType.Type == PT_Object && k == cue.StructKind {
 		cuePathValue, _ = getUnderlyingValue(cuePathValue)
 
 		// We can find available fields
